@@ -438,10 +438,10 @@ def c05(pid, tier, seed):
     plan = []
     for R in rates:
         sel = cover20 if (q and R in (20, 255)) or not q else cover20[::7]
-        plan.append(("single_R%d" % R, [hist(s, R, "single", False) for s in sel + (lifted20 if R in (20, 250) or not q else lifted20[::4])] + [hist(s, R, "single", True) for s in sel[::5]]
+        plan.append(("single_R%d" % R, [hist(s, R, "single", False) for s in sel + (lifted20 if R == 20 or not q else (lifted20[::2] if R == 250 else lifted20[::4]))] + [hist(s, R, "single", True) for s in sel[::5]]
                      + [hist(s, R, "single", False) for s in (deep20 + steady if (R in (20, 255) or not q) else steady[:1])]))
     plan.append(("multi_R20", [hist(s, 20, "multi", False) for s in cover20[::3] + deep20[:8] + steady[:1]]))
-    plan.append(("posgate", [hist(s, 1, "pos", False) for s in cover10 + lifted10 + steady]))
+    plan.append(("posgate", [hist(s, 1, "pos", False) for s in cover10 + (lifted10[::2] if q else lifted10) + steady]))
     for name, hs in plan:
         bad, st, total = vlib.replay_and_judge("%s_%s" % (pid, name), hs, "api", "Trace_Throttle", shards=8)
         nh += len(hs)
